@@ -42,14 +42,23 @@ Section EnvOk.
   Lemma record_one st e : record_of st (fst (step P cf st e)) [(e, snd (step P cf st e))].
   Proof. unfold record_of. cbn. destruct (step P cf st e). reflexivity. Qed.
 
+  Lemma do_write_record c w : forall fuel st d, record_of st (fst (do_write P cf fuel st c d w)) (snd (do_write P cf fuel st c d w)).
+  Proof.
+    induction fuel as [|f IH]; intros st d; cbn [do_write]; [apply record_nil|].
+    destruct d as [|b r]; [apply record_nil|].
+    destruct (find_conn (s_conns st) c) as [x|]; [|apply record_nil].
+    set (e := ERead c (firstn (take_size x) (b :: r)) w).
+    pose proof (record_one st e) as R1. destruct (step P cf st e) as [st1 o1]. cbn [fst snd] in R1.
+    specialize (IH st1 (skipn (take_size x) (b :: r))). destruct (do_write P cf f st1 c _ w) as [st2 o2]. cbn [fst snd] in *.
+    change ((e, o1) :: o2) with ([(e, o1)] ++ o2). eapply record_app; eassumption.
+  Qed.
+
   Lemma do_writes_record c w : forall ds st, record_of st (fst (do_writes P cf st c ds w)) (snd (do_writes P cf st c ds w)).
   Proof.
     induction ds as [|d r IH]; intros st; cbn [do_writes]; [apply record_nil|].
-    pose proof (run_steps_length st (reads_of st c d w)) as Hl.
-    destruct (run_steps P cf st (reads_of st c d w)) as [st1 o1] eqn:E. cbn [snd] in Hl.
+    pose proof (do_write_record c w (length d) st d) as R1. destruct (do_write P cf (length d) st c d w) as [st1 o1]. cbn [fst snd] in R1.
     specialize (IH st1). destruct (do_writes P cf st1 c r w) as [st2 o2]. cbn [fst snd] in *.
-    eapply record_app; [|exact IH].
-    unfold record_of. rewrite map_fst_combine, map_snd_combine by (symmetry; exact Hl). exact E.
+    eapply record_app; eassumption.
   Qed.
 
   Lemma drain_record : forall bl st, record_of st (fst (fst (drain P cf bl st))) (snd (drain P cf bl st)).
